@@ -640,7 +640,7 @@ func checkClones(s step) *rp.Fail {
 			return rp.Failf("types.Card.Clone/shares-storage", "mutating the original's doors changed the clone")
 		}
 	}
-	dev := uhppote.Device{Name: "D", DeviceID: c.Serial, Address: types.ControllerAddrFrom(netip.AddrFrom4(c.Address), c.Port), Doors: []string{"a", "b", "c", "d"}[:s.I%5], Protocol: "udp", TimeZone: time.UTC}
+	dev := uhppote.Device{Name: "D", DeviceID: c.Serial, Address: types.ControllerAddrFrom(netip.AddrFrom4(c.Address), c.Port), Doors: []string{"a", "b", "c", "d", "e", "f", "g", "h", "i"}[:s.I%10], Protocol: "udp", TimeZone: time.UTC}
 	dc := dev.Clone()
 	if dc.Name != dev.Name || dc.DeviceID != dev.DeviceID || dc.Address != dev.Address || dc.Protocol != dev.Protocol || dc.TimeZone != dev.TimeZone || !reflect.DeepEqual(append([]string{}, dc.Doors...), append([]string{}, dev.Doors...)) {
 		return rp.Failf("uhppote.Device.Clone/not-equal", "clone %+v differs from original %+v", dc, dev)
@@ -654,7 +654,7 @@ func checkClones(s step) *rp.Fail {
 		return rp.Failf("uhppote.Device.Clone/shares-storage", "appending to the clone's door names wrote into the original's backing array (len %d, cap %d)", len(dev.Doors), cap(dev.Doors))
 	}
 	for i, n := range dev.Doors {
-		if n != []string{"a", "b", "c", "d"}[i] {
+		if n != []string{"a", "b", "c", "d", "e", "f", "g", "h", "i"}[i] {
 			return rp.Failf("uhppote.Device.Clone/shares-storage", "mutating the clone's door names changed the original: %v", dev.Doors)
 		}
 	}
@@ -727,7 +727,7 @@ func genHistory(t *rapid.T) history {
 			continue
 		}
 		seen[s] = true
-		dv := hook.DeviceCfg{Name: fmt.Sprintf("dev%d", i), Serial: s, Doors: []string{"front", "back", "side", "garage"}[:rapid.IntRange(0, 4).Draw(t, "doors")]}
+		dv := hook.DeviceCfg{Name: fmt.Sprintf("dev%d", i), Serial: s, Doors: []string{"front", "back", "side", "garage", "roof", "cellar", "gate", "dock"}[:rapid.SampledFrom([]int{0, 1, 2, 3, 4, 4, 4, 5, 6, 8}).Draw(t, "doors")]}
 		switch rapid.IntRange(0, 3).Draw(t, "kind") {
 		case 0:
 		case 1:
@@ -742,7 +742,7 @@ func genHistory(t *rapid.T) history {
 	// a controller listed more than once (a merged configuration): the later entry is in effect
 	if len(h.Cfg.Devices) > 0 && rapid.IntRange(0, 2).Draw(t, "duplicate") == 0 {
 		dup := h.Cfg.Devices[rapid.IntRange(0, len(h.Cfg.Devices)-1).Draw(t, "dup.of")]
-		dup.Doors = []string{"north", "south", "east", "west"}[:rapid.IntRange(0, 4).Draw(t, "dup.doors")]
+		dup.Doors = []string{"north", "south", "east", "west", "up", "down"}[:rapid.IntRange(0, 6).Draw(t, "dup.doors")]
 		if rapid.Bool().Draw(t, "dup.addr") {
 			dup.HasAddr, dup.IP, dup.Port, dup.Protocol = true, [4]byte{10, 0, 2, 99}, 60000, rapid.SampledFrom([]string{"udp", "tcp"}).Draw(t, "dup.protocol")
 		}
@@ -770,6 +770,7 @@ func genHistory(t *rapid.T) history {
 func props() []rp.Prop {
 	return []rp.Prop{
 		rp.P[history]{Name: "history", Checks: ev.Pick(6000, 1500000) / ev.Shards(), Gen: genHistory, Check: checkHistory},
+		rp.P[overlapCase]{Name: "overlapping-discoveries", Checks: ev.Pick(60, 6000) / ev.Shards(), Gen: genOverlap, Check: checkOverlap},
 		rp.P[sliceCase]{Name: "slice-arguments", Checks: ev.Pick(4000, 400000) / ev.Shards(), Gen: genSlices, Check: checkSlices},
 	}
 }
